@@ -106,4 +106,126 @@ theorem remove_header_protection_eq_model (mask : MaskFn) (ht : HType) (sample :
          cases hv : decodeVarint [(fb ^^^ (m0 &&& 15)) &&& 3] <;> cases hv' : decodeVarint [(fb ^^^ (m0 &&& 31)) &&& 3] <;>
            simp [ofOpt, ofD, dErr, Except.map, byte_xor_eq_model, byteXor, hv, hv', Nat.add_comm])
 
+/-- the names `keys[...]` is asked for (ASCII) -/
+def keyName : KeyName → List Nat
+  | .serverInitial => [115, 101, 114, 118, 101, 114, 95, 105, 110, 105, 116, 105, 97, 108, 95, 104, 112]
+  | .clientInitial => [99, 108, 105, 101, 110, 116, 95, 105, 110, 105, 116, 105, 97, 108, 95, 104, 112]
+  | .serverHandshake => [115, 101, 114, 118, 101, 114, 95, 104, 97, 110, 100, 115, 104, 97, 107, 101, 95, 104, 112]
+  | .clientHandshake => [99, 108, 105, 101, 110, 116, 95, 104, 97, 110, 100, 115, 104, 97, 107, 101, 95, 104, 112]
+  | .clientEarly => [99, 108, 105, 101, 110, 116, 95, 101, 97, 114, 108, 121, 95, 104, 112]
+  | .serverApplication => [115, 101, 114, 118, 101, 114, 95, 97, 112, 112, 108, 105, 99, 97, 116, 105, 111, 110, 95, 104, 112]
+  | .clientApplication => [99, 108, 105, 101, 110, 116, 95, 97, 112, 112, 108, 105, 99, 97, 116, 105, 111, 110, 95, 104, 112]
+
+/-- a packet of the model as the keyword arguments the constructor call is given (`token_len`, `packet_len` are the
+    model's derived attributes; `first_byte` of Retry / Version Negotiation is an int) -/
+def ofPkt (p : Pkt) : Gen.Py.QuicPacketObj :=
+  { header := p.htype, packet_type := p.ptype, isserver := p.isServer, ts := p.ts,
+    first_byte := if p.ptype = .retry ∨ p.ptype = .versionNeg then .inl (p.firstByte.headD 0).toNat else .inr p.firstByte,
+    dcid := p.dcid, version := p.version, dcid_len := p.dcidLen, scid_len := p.scidLen, scid := p.scid,
+    token_len := p.tokenLen, token_len_bytes := p.tokenLenBytes, token := p.token, packet_len := p.packetLen,
+    packet_len_bytes := p.lenBytes, packet_num := p.pn, payload := p.payload, key_phase := p.keyPhase,
+    retry_token := p.retryToken, retry_integ_tag := p.retryTag }
+
+/-- a field whose count is fine, and its size -/
+def fOk : Fld → Bool
+  | .B => true
+  | .S z => decide (0 ≤ z)
+def fNat : Fld → Nat
+  | .B => 1
+  | .S z => z.toNat
+
+@[simp] theorem fOk_B : fOk .B = true := rfl
+@[simp] theorem fOk_nat (n : Nat) : fOk (.S (Int.ofNat n)) = true := by simp [fOk]
+@[simp] theorem fNat_B : fNat .B = 1 := rfl
+@[simp] theorem fNat_nat (n : Nat) : fNat (.S (Int.ofNat n)) = n := by simp [fNat]
+
+theorem fmtSize_eq (fmt : List Fld) : fmtSize fmt = if fmt.all fOk then .ok ((fmt.map fNat).sum) else .error .struct := by
+  induction fmt with
+  | nil => rfl
+  | cons f r ih =>
+    cases f with
+    | B => rw [fmtSize, ih]; by_cases h : r.all fOk <;> simp [Fld.size, h, fOk, fNat]
+    | S z =>
+      rw [fmtSize, ih]
+      by_cases hz : z < 0
+      · have : ¬ 0 ≤ z := by omega
+        simp [Fld.size, hz, fOk, this]
+      · have : 0 ≤ z := by omega
+        by_cases h : r.all fOk <;> simp [Fld.size, hz, h, fOk, fNat, this]
+
+/-- `struct.unpack_from` under a handler: struct.error for a negative count or a short buffer, else the fields -/
+theorem try_unpack {β : Type} (fmt : List Fld) (d : Bytes) (H : PyRt.Err → β) (K : List Bytes → β) :
+    tryE (unpackFrom fmt d) H K =
+      if fmt.all fOk then (if d.length < (fmt.map fNat).sum then H .struct else K (cutFields fmt d)) else H .struct := by
+  unfold unpackFrom
+  rw [fmtSize_eq]
+  by_cases h : fmt.all fOk
+  · by_cases h2 : d.length < (fmt.map fNat).sum <;> simp [h, h2]
+  · simp [h]
+
+theorem dErr_ne_fuel (e : DErr) : dErr e ≠ .fuel := by cases e <;> simp [dErr]
+
+theorem key_phase_eq (x : UInt8) : x.toNat >>> 2 &&& 1 = (x >>> 2 &&& 1).toNat := by
+  revert x; apply forall_u8; decide +kernel
+
+theorem extract_short (mask : MaskFn) (env : Env) (isServer : Bool) (guessed : Bytes) (ts : Nat) (fb : UInt8) (r : Bytes)
+    (keys : Dict (List Nat) Bytes) (cs : Option Bytes)
+    (hk : ∀ n, keys (keyName n) = env.keys n) (hc : env.chacha = decide (cs = some [0x13, 0x03]))
+    (hz : Bytes.beNat (fb :: r) ≠ 0) (hs : isLong fb = false) :
+    Gen.Py.extract_quic_packet (maskE mask) isServer guessed keys cs (fb :: r) ts =
+      .ok ((extract mask env isServer guessed ts (fb :: r)).pkts.map ofPkt)
+        { tls_data := (extract mask env isServer guessed ts (fb :: r)).rest } := by
+  unfold Gen.Py.extract_quic_packet extract
+  have kSA : keys (keyName .serverApplication) = env.keys .serverApplication := hk _
+  have kCA : keys (keyName .clientApplication) = env.keys .clientApplication := hk _
+  simp only [keyName] at kSA kCA
+  simp only [get_header_type_eq_model, onFirst, hs, hz, tryE_ok, Bool.false_eq_true, if_false, decide_false, reduceCtorEq,
+    decide_true, if_true]
+  simp only [try_unpack, List.append_nil, List.cons_append, List.nil_append, List.all_cons, List.all_nil, fOk_B, fOk_nat,
+    Bool.and_self, Bool.and_true, Bool.true_and, List.map_cons, List.map_nil, List.sum_cons, List.sum_nil, fNat_B, fNat_nat,
+    cutFields, fldB, fldS, List.getD_cons_zero, List.take_succ_cons, List.take_zero, List.headD_cons, dictGetE, kSA, kCA,
+    remove_header_protection_eq_model, extractShort, need, bind, Except.bind, Dissect.ofOpt, ne_eq, not_false_eq_true,
+    List.length_cons, reduceCtorEq, hc, decide_false]
+  have hH : ∀ (e : DErr), (if (decide ¬ dErr e = PyRt.Err.fuel) = true then (Res.ok [] { tls_data := [] } : Res Gen.Py.extract_quic_packet.St (List Gen.Py.QuicPacketObj))
+      else Res.raised (dErr e) { tls_data := fb :: r }) = Res.ok [] { tls_data := [] } := by
+    intro e; simp [dErr_ne_fuel]
+  by_cases h1 : List.length r + 1 < 1 + (List.length guessed + 0)
+  · have h1' : List.length r + 1 < 1 + List.length guessed := by omega
+    simp [h1, h1']
+  · have h1' : ¬ List.length r + 1 < 1 + List.length guessed := by omega
+    simp only [h1, h1', if_false, if_true]
+    cases isServer <;> simp only [Bool.false_eq_true, if_false, if_true] <;>
+    (cases hkey : env.keys _ with
+     | none => simp [tryE]
+     | some key =>
+       simp only [tryE_ok]
+       cases hr : removeHP mask false (Bytes.slice (fb :: r) (1 + List.length guessed + 4) (1 + List.length guessed + 4 + 16)) fb key
+           (fb :: r) (1 + List.length guessed) (decide (cs = some [19, 3])) with
+       | error e => simp [ofD, Except.map, tryE, dErr_ne_fuel]
+       | ok v =>
+         obtain ⟨fb', pn, l⟩ := v
+         simp only [ofD, Except.map, tryE_ok]
+         by_cases h2 : List.length r + 1 < 1 + List.length guessed + l
+         · have hf : fOk (Fld.S (Int.ofNat (List.length r + 1) - Int.ofNat (1 + List.length guessed + l))) = false := by
+             simp only [fOk, Int.ofNat_eq_natCast, decide_eq_false_iff_not]; omega
+           simp only [hf, Bool.false_eq_true, if_false, decide_true, if_true, h2]
+           simp
+         · have hf : fOk (Fld.S (Int.ofNat (List.length r + 1) - Int.ofNat (1 + List.length guessed + l))) = true := by
+             simp only [fOk, Int.ofNat_eq_natCast, decide_eq_true_eq]; omega
+           have hn : fNat (Fld.S (Int.ofNat (List.length r + 1) - Int.ofNat (1 + List.length guessed + l))) =
+               List.length r + 1 - (1 + List.length guessed + l) := by
+             simp only [fNat, Int.ofNat_eq_natCast]; omega
+           have hsum : ¬ List.length r + 1 < 1 + (List.length guessed + (l + (List.length r + 1 - (1 + List.length guessed + l) + 0))) := by omega
+           have hd : ∀ (x : Bytes) (a b c n : Nat), List.take n (List.drop a (List.drop b (List.drop c x))) =
+               Bytes.slice x (c + b + a) (c + b + a + n) := by
+             intro x a b c n
+             have e : c + b + a + n - (c + b + a) = n := by omega
+             simp only [Bytes.slice, List.drop_drop, e]
+           simp only [hf, hn, hsum, h2, if_true, if_false, getItem_cons_zero, tryE_ok]
+           simp only [Int.ofNat_eq_natCast, Int.toNat_natCast, List.getD_cons_succ, List.getD_cons_zero, hd, List.map_cons, List.map_nil]
+           have e1 : (((List.length r + 1 : Nat) : Int) - ((1 + List.length guessed + l : Nat) : Int)).toNat =
+               List.length r + 1 - (1 + List.length guessed + l) := by omega
+           rw [e1, key_phase_eq]
+           simp [ofPkt, Pkt.tokenLen, Pkt.packetLen])
+
 end TLX.Props.Translated
